@@ -31,7 +31,8 @@ LEVEL_TEXT = ("Lean 4 theorems, for all networks, initial states / functions, sa
               "observed parameter and the caller's value of every other key, and depends on u at those (input, "
               "parameter) pairs only.  The model is tied to /repo on every run by exact differential execution; "
               "Holds.C05 is evaluated on the implementation's own values against solution-level tables computed "
-              "independently by the harness.")
+              "independently by the harness."
+              "  Holds.C05 itself is proved of the model's value of every term, loss by loss (holdsC05_model_*).")
 LEVEL_NOTE = ("Trusted: Lean kernel + {propext, Classical.choice, Quot.sound}; the network is an oracle table (whole "
               "outputs; the model slices, aligns rows and aggregates); the tie of the hand-written model to the code is "
               "differential; a parameter batch is covered for the observation term (observed rows win over generated rows of "
